@@ -14,7 +14,8 @@ RULE = ("(a) for every buffer size B in {vrl, vrl+2, .., 3*vrl}: breadth-first s
         "the real BufferedOutput+ByteWriter, states merged on (filled, append flag, total - disk length, finalised), "
         "disk content checked after every physical write; (b) end-to-end: every output_chunk_size from the record "
         "length to file size + 4 (step 2, plus odd / float spellings) x every input chunk size x prior content of the "
-        "target; every flush point of every run is a crash point at which the on-disk bytes must be a prefix of the "
+        "target; every input_chunk_size 1..R+1, 100 x source kind {inline, dict, structured array, HDF5} x row windows "
+        "must give the same bytes as a single chunk; every flush point of every run is a crash point at which the on-disk bytes must be a prefix of the "
         "final file ending on a visible-record boundary; non-trivial = run whose flush log was checked")
 ASSUMPTIONS = ["strict reader mc/rp66.py", "flush points observed through a harness-installed wrapper around "
                "ByteWriter.write_bytes (reads the file after each physical write)",
@@ -55,6 +56,9 @@ def shards(tier):
             for part in range(4):
                 out.append({'kind': 'e2e', 'vrl': v, 'spec': spec_id, 'part': part})
     out.append({'kind': 'args'})
+    # input chunk size x data source kind x row window (the output must not depend on the input chunk size)
+    for src in ('inline', 'dict', 'struct', 'h5'):
+        out.append({'kind': 'ics', 'src': src})
     # TLA+ model of the buffer machine, checked by TLC; every edge of its state graph is replayed on the real classes
     cfgs = [(46, 7, 5)] if tier == 'quick' else [(b, g, 6) for b in (24, 26, 44, 46, 48, 68, 72) for g in (0, 7, 100)]
     for b, g, k in cfgs:
@@ -74,6 +78,11 @@ def cases(shard, tier):
             yield {'kind': 'machine', 'vrl': v, 'B': B}
     elif shard['kind'] == 'tlc':
         yield dict(shard)
+    elif shard['kind'] == 'ics':
+        for rows in (4, 7):
+            for win in ((0, None), (1, None), (2, None), (1, rows - 1), (0, rows - 1)):
+                for ics in (1, 2, 3, 4, 5, 6, rows, rows + 1, 100):
+                    yield {'kind': 'ics', 'src': shard['src'], 'rows': rows, 'win': list(win), 'ics': ics}
     elif shard['kind'] == 'args':
         for ocs in (31, 30, -64, 64.5, '64', True, 64.0, 1e3, [64]) + ((None,) if tier != 'quick' else ()):
             yield {'kind': 'args', 'ocs': ocs if not isinstance(ocs, list) else {'$tuple': ocs}}
@@ -91,6 +100,53 @@ def cases(shard, tier):
             for ocs in (v + 1, float(v), float(v + 2), size, size + 1, 2 ** 20):
                 yield {'kind': 'e2e', 'vrl': v, 'spec': shard['spec'], 'ocs': ocs, 'ics': None, 'pre': 'absent'}
             yield {'kind': 'e2e', 'vrl': v, 'spec': shard['spec'], 'ocs': v, 'ics': None, 'pre': 'dir'}
+
+
+def _ics_spec(c, ics):
+    rows = c['rows']
+    a = S.arr_spec('float64', [rows], [0x4000000000000000 + (k << 47) for k in range(rows)])
+    b = S.arr_spec('int16', [rows, 2], [(3 * k + 1) % 65536 for k in range(2 * rows)])
+    inline = c['src'] == 'inline'
+    ops = [S.op_lf(), S.op_origin(),
+           S.op_add('channel', 'C0', 'DEPTH', **({'data': a} if inline else {})),
+           S.op_add('channel', 'C1', 'PAIR', **({'data': b} if inline else {})),
+           S.op_add('frame', 'F0', 'MAIN', channels=[{'$ref': 'C0'}, {'$ref': 'C1'}], index_type='BOREHOLE-DEPTH')]
+    w = {'output_chunk_size': 2 ** 16}
+    if ics is not None:
+        w['input_chunk_size'] = ics
+    if c['win'][0]:
+        w['from_idx'] = c['win'][0]
+    if c['win'][1] is not None:
+        w['to_idx'] = c['win'][1]
+    d = {'DEPTH': a, 'PAIR': b}
+    if c['src'] == 'dict':
+        w['data'] = {'$datadict': d}
+    elif c['src'] == 'struct':
+        w['data'] = {'$struct': {'fields': [[k, v] for k, v in d.items()]}}
+    elif c['src'] == 'h5':
+        w['data'] = {'$h5': {'/' + k: v for k, v in d.items()}}
+    return {'sul': {'max_record_length': 8192}, 'ops': ops, 'write': w}
+
+
+def run_ics(c):
+    key = ('ics', c['src'], c['rows'], tuple(c['win']))
+    if key not in _REF:
+        r = S.run_spec(_ics_spec(c, None), fname='ref10ics.dlis')
+        _REF[key] = r['data'] if r['write'] == 'ok' else r['write']
+    ref = _REF[key]
+    res = S.run_spec(_ics_spec(c, c['ics']))
+    viol = []
+    if isinstance(ref, str) or ref is None:
+        return Outcome('ics:reference-raised', [("C10:ics:harness:reference-raised", f"{ref} | {c}")], False)
+    if res['write'] != 'ok':
+        viol.append((f"C10:ics:valid-input-chunk-rejected:{c['src']}", f"{res['write']} | {c}"))
+    elif res['data'] != ref:
+        n1 = len([1 for r in R.parse_physical(res['data']).records if not r.is_eflr])
+        n0 = len([1 for r in R.parse_physical(ref).records if not r.is_eflr])
+        viol.append((f"C10:ics:file-depends-on-input-chunk:{c['src']}:{'row-count' if n1 != n0 else 'bytes'}",
+                     f"input_chunk_size={c['ics']} gives {n1} frame-data records / {len(res['data'])} bytes, single chunk "
+                     f"gives {n0} / {len(ref)} | {c}"))
+    return Outcome(f"ics:{c['src']}", viol, True, digest=sha(res['data'] or b''))
 
 
 def make_spec(vrl, which):
@@ -128,6 +184,8 @@ def run_case(c):
         return run_machine(c)
     if c['kind'] == 'tlc':
         return run_tlc_conformance(c)
+    if c['kind'] == 'ics':
+        return run_ics(c)
     if c['kind'] == 'args':
         sp = make_spec(64, 'two-frames')
         v = c['ocs']
